@@ -45,8 +45,8 @@ def run(ctx):
     from dtaidistance import dtw, dtw_ndim, dtw_cc
     rng = ctx.rng
     pyd = dtw.distance
-    N = 5 if ctx.quick else 6
-    reps = 1 if ctx.quick else 3
+    N = 6 if ctx.quick else 7
+    reps = 2 if ctx.quick else 6
     idx = 0
     for n in range(1, N + 1):
         for rep in range(reps):
